@@ -206,6 +206,17 @@ def replay(run, binary, fam, scenarios, name, ops=False, j=None, chunks=None, st
     return ["%s.%d" % (outp, c) for c in range(chunks)]
 
 
+def gen_random(run, binary, gen, n, tag, seed_offset=0):
+    """Seeded random scenarios from the Go-side generator (outcome computed by TLC at validation)."""
+    p = subprocess.run([binary, "gen", "-fam", gen, "-n", str(n), "-seed", str(run.seed * 1000 + seed_offset), "-tag", tag],
+                       capture_output=True, text=True, env=GOENV)
+    if p.returncode != 0:
+        raise Infra("vreplay gen failed: " + p.stderr[-2000:])
+    scs = [json.loads(l) for l in p.stdout.splitlines() if l.strip()]
+    run.cov["gen"].append({"module": "vreplay gen " + gen, "name": "rnd", "used": len(scs)})
+    return scs
+
+
 def count_lines(path):
     n = 0
     with open(path, "rb") as f:
@@ -334,6 +345,8 @@ def finish(run, level, rule, assumptions, distinct_nontrivial=None, exhaustive=F
     for fid, (k, n) in sorted(hits.items()):
         log("KNOWN-FINDING: property=%s %s [%s, %d scenario(s)]" % (k["property"], k["what"], fid, n))
     rc = 0
+    for old in glob.glob(os.path.join(REPLAYDIR, "%s.%s.seed*.json" % (run.prop, run.tier))):
+        os.remove(old)
     if new:
         os.makedirs(REPLAYDIR, exist_ok=True)
         byprop = {}
